@@ -329,6 +329,15 @@ def msan_enum(ctx):
     files = ctx.data["corpus"] + ctx.data["own"]
     for i, f in enumerate(files):
         yield {"path": f if not f.startswith(build.REPO) else os.path.relpath(f, build.REPO), "own": not f.startswith(build.REPO)}
+    # C19's hand-written edge units and placement units: mostly rejected inputs, the paths where a field is read before it is set
+    from . import c19
+    for i in range(len(c19.EDGES)):
+        yield {"edge": i}
+    k = 0
+    for pc in c19.place_enum(ctx):
+        k += 1
+        if ctx.tier == "thorough" or (k + ctx.seed) % 4 == 0:
+            yield {"place": pc}
     n = 60 if ctx.tier == "quick" else 3000
     import random
     rnd = random.Random(ctx.seed)
@@ -343,7 +352,13 @@ def msan_check(case, ctx):
     res = Result()
     res.n = 1
     from .c19 import _args_for, apply_muts
-    if "mut" in case:
+    if "text" in case:
+        data, target, extra = case["text"].encode("utf-8", "surrogateescape"), "x86_64-sysv", []
+    elif "edge" in case or "place" in case:
+        from . import c19
+        data = (c19.EDGES[case["edge"]] + "\n" if "edge" in case else c19.place_source(case["place"])).encode("utf-8", "surrogateescape")
+        target, extra = "x86_64-sysv", []
+    elif "mut" in case:
         p0 = ctx.data["corpus"][case["mut"]["fi"] % len(ctx.data["corpus"])]
         data = apply_muts(open(p0, "rb").read().decode("utf-8", "surrogateescape"), case["mut"]["muts"]).encode("utf-8", "surrogateescape")
         target, extra = cproc.TARGETS[case["t"]], (["-E"] if case["E"] else [])
@@ -365,7 +380,12 @@ def msan_check(case, ctx):
     if b"MemorySanitizer" in p.err:
         m = re.search(rb"#0 0x[0-9a-f]+ in (\w+) [^\n]*?(\w+\.c):(\d+)", p.err)
         where = (m.group(1) + b"@" + m.group(2)).decode() if m else "?"
-        res.fail = dict(sig="msan:" + where, msg="MemorySanitizer: use of uninitialised value in %s\n%s" % (where, p.err[:1500].decode(errors="replace")),
+        sig = "msan:" + where
+        # recorded (same root as C19's two `ubsan:` findings): arrays of length 0 and `[*]` in a block are taken for VLAs whose size
+        # value was never computed.  Only for inputs that contain such an array, and only in the functions that read that value.
+        if where.split("@")[0] in ("calcvla", "emitclass", "emitvalue", "emitfunc", "emitinst", "funcalloc") and re.search(rb"\[\s*(0|\*|!\d+)\s*\]", data):
+            sig = "msan:zero-length-array-as-vla"
+        res.fail = dict(sig=sig, msg="MemorySanitizer: use of uninitialised value in %s\n%s" % (where, p.err[:1500].decode(errors="replace")),
                         input=data[:3000].decode("latin-1"))
     return res
 
